@@ -247,7 +247,8 @@ impl EncCase {
             h = crate::core::splitmix(h);
             order.swap(i, (h % (i as u64 + 1)) as usize);
         }
-        let mut b = DataMatrixBuilder::new();
+        // both documented ways to obtain a builder with the default configuration
+        let mut b = if h & 0x100 == 0 { DataMatrixBuilder::new() } else { DataMatrixBuilder::default() };
         for k in order {
             b = match k {
                 0 => b.with_symbol_list(mask_to_list(self.list)),
